@@ -169,3 +169,15 @@ func IteF(c bool, a, b float64) float64 {
 	}
 	return b
 }
+
+// Redis model access (engine only; natively the harnesses that use them are not replayable).
+func RedisSetStr(key, val string, pttlMs int64)       { panic("verifrt: redis model is engine-only") }
+func RedisSetInt(key string, n int64, pttlMs int64)   { panic("verifrt: redis model is engine-only") }
+func RedisGetStr(key string) (string, bool)           { panic("verifrt: redis model is engine-only") }
+func RedisGetInt(key string) (int64, bool)            { panic("verifrt: redis model is engine-only") }
+func RedisPTTL(key string) int64                      { panic("verifrt: redis model is engine-only") }
+func RedisFail(on bool)                               {}
+func RedisCalls() int                                 { return 0 }
+func RedisWrites() int                                { return 0 }
+func RedisPersistentWrites() int                      { return 0 }
+func RedisKeys() int                                  { return 0 }
